@@ -786,7 +786,10 @@ func c13One(res *explore.Result, s *shape, caps []int, listAlts int, verbose boo
 			ctx := parsley.NewContext(parsley.NewFileSet(f), text.NewReader(f))
 			ctx.EnableTransformation()
 			ctx.EnableStaticCheck()
-			root := parser.Func(func(*parsley.Context, data.IntMap, parsley.Pos) (parsley.Node, data.IntSet, parsley.Error) {
+			root := parser.Func(func(c *parsley.Context, _ data.IntMap, _ parsley.Pos) (parsley.Node, data.IntSet, parsley.Error) {
+				// like a real grammar that stopped a repetition somewhere to the right, the parser leaves a (non-fatal)
+				// furthest error in the context although it succeeds: it must not replace what a pass reports
+				c.SetError(parsley.NewError(f.Pos(60), parsley.NotFoundError("more input")))
 				return t.rootN, data.EmptyIntSet, nil
 			})
 			var out parsley.Node
